@@ -107,7 +107,7 @@ def _work(units):
         elif u[0] == "ws":
             # the same sentences written with every ASCII white-space character (and line-end convention) between the tokens
             _, sep = u
-            for tag, ast, envs in list(ei.sharing())[:8] + list(ei.nested_tuples())[:3] + list(ei.singles(ei.POOL1[:3]))[:12]:
+            for tag, ast, envs in list(ei.sharing())[:8] + list(ei.nested_tuples())[:3] + list(ei.singles(["_u", "_", "__x__", "x1", "Zed"])):
                 if idents_of(ast) & set(reserved):
                     continue
                 text = rp.render(ast, sep=sep)
